@@ -1,0 +1,6 @@
+//go:build !verif
+
+package parse
+
+// verifLexStep is a verification hook; a no-op unless built with -tags verif.
+func verifLexStep(l *lexer) {}
